@@ -33,7 +33,7 @@ Definition mode_items (m : mode) (items : list value) : list value :=
   | MMixed => if (1 <? length items)%nat then [VArr items] else items
   end.
 Definition select_items_t (root : value) (ps : list path) (m : mode) : res (list value) :=
-  do items <- find_positions PATH_FUEL root None ps;
+  do items <- find_positions root None ps;
   if is_predicate ps then Ok [] else Ok (mode_items m items).
 
 Definition step_docs3 (regs : list value) (o : op3) : list value :=
